@@ -597,7 +597,7 @@ def gen_sel(rng, m, modes, path, with_filter=True):
         v = 0
     elif r < 0.4 and n >= h:
         v = n - h
-    elif r < 0.5 and n >= h and path == "processor":
+    elif r < 0.54 and n >= h and path == "processor":
         v = None                      # Processor.check_min_detected_photons_filter sets n - Σ heralds itself
     elif r < 0.68:
         v = rng.randint(1, max(1, n))
@@ -1975,7 +1975,7 @@ def gen_case_ext(chk, rng, max_m, max_depth, max_ops, nmax):
     r = rng.random()
     if r < 0.22:
         m = rng.randint(1, max_m + 1)
-        malformed = rng.random() < 0.12
+        malformed = rng.random() < 0.28
         modes = gen_input(rng, m, nmax + 1, malformed=malformed, vacuum=rng.random() < 0.04)
         return {"kind": "convert", "modes": modes, "symbolic": rng.random() < 0.4, "inverse": rng.random() < 0.6}
     m = pick_m(rng, max_m)
@@ -2184,7 +2184,7 @@ def run(chk: core.Check):
         handle_batch(chk, [c for c in corpus if c["kind"] != "session"])
         handle_sessions(chk, [c for c in corpus if c["kind"] == "session"])
     cases = [gen_case(chk, rng, max_m, max_depth, max_ops, nmax) for _ in range(n)]
-    cases += [gen_case_ext(chk, rng, max_m, max_depth, max_ops, nmax) for _ in range(chk.pick(360, 2600))]
+    cases += [gen_case_ext(chk, rng, max_m, max_depth, max_ops, nmax) for _ in range(chk.pick(300, 2600))]
     ns = chk.pick(120, 600)
     sessions = [gen_session(chk, rng, max_m, max_depth, max_ops, nmax, chk.pick(4, 6)) for _ in range(ns)]
     pipelined(chk, [cases[i:i + 100] for i in range(0, len(cases), 100)], prepare_batch, finish_batch)
